@@ -69,7 +69,9 @@ def gen_calendar(rng):
     return wk([0, 1, 2, 3, 4], I(8), None, day_us(rng.randint(2, 12), DAY - 1))
 
 
-EST = [0, 1, 2, 4, 8, 8, 12, 16, 24, 32, 40, 64, 64, 100, 128, 200, 320]
+# eighths of a unit; odd multi-day amounts (10.125, 20.625, 3.375 units) are not multiples of 0.01: any rounding of
+# the work still to place ("float dust" clean-up) shows in the conservation clause
+EST = [0, 1, 2, 4, 8, 8, 12, 16, 24, 32, 40, 64, 64, 100, 128, 200, 320, 81, 165, 27, 45, 331, 13, 75]
 
 
 def gen_case(rng, force_dir=None):
@@ -252,14 +254,16 @@ def gen_aimed_case(rng, force_dir=None):
         links = []
         via_min = rng.random() < 0.3
         for i in range(k):
-            t = T(ids[1 + i], None, resource='a', est=rng.choice([64, 64, 128]))
+            t = T(ids[1 + i], None, resource='a', est=rng.choice([8, 16, 32, 64, 64, 128]))
             if via_min:
                 t['min_start'] = day_us(rng.randint(2, 6))
             else:
                 links.append([t_(0), t_(1 + i)])
             out.append(t)
-        for i in range(rng.randint(1, 2)):
-            out.append(T(ids[8 + i], None, resource='a', est=rng.choice([32, 64, 64, 128])))
+        # the followers flow over several days and end INSIDE a day that a late-released task has partly booked
+        # (the rows of one resource and day are then not adjacent in the reservation list)
+        for i in range(rng.randint(1, 3)):
+            out.append(T(ids[8 + i], None, resource='a', est=rng.choice([32, 64, 100, 128, 200, 320])))
         c['tasks'], c['links'] = out, links
         c['resources'] = [r for r in c['resources'] if r['name'] not in ('a', 'b')]
         if rng.random() < 0.5:
@@ -269,7 +273,7 @@ def gen_aimed_case(rng, force_dir=None):
 
 
 OFF_UNITS = [7, 5.6, 11, 13, 3, 7.5, 6, 0.7, 8, 9.1]
-OFF_AMOUNTS = [0.1, 0.2, 0.3, 0.7, 1.1, 2.5, 3.3, 5.6, 7, 10.4, 13, 21.7, 40, 0.05, 33.3]
+OFF_AMOUNTS = [0.1, 0.2, 0.3, 0.7, 1.1, 2.5, 3.3, 5.6, 7, 10.4, 13, 21.7, 40, 0.05, 33.3, 10.125, 20 / 3, 12.345, 1.005]
 
 
 def gen_offgrid_case(rng):
